@@ -71,6 +71,8 @@ type Net struct {
 
 	ParseErrors int
 	Delivered   int
+	// WriteErrors counts frames lost because they had no room for the link margins.
+	WriteErrors int
 }
 
 // New returns an empty network bound to a run.
@@ -144,13 +146,19 @@ func (l *Link) SendPriority(f frame.Frame) error { return l.send(f, true) }
 func (l *Link) Send(f frame.Frame) error { return l.send(f, false) }
 
 func (l *Link) send(f frame.Frame, prio bool) error {
-	// What the shipped writer does at the boundary: serialise, then release.
-	data, err := f.FrameDataWithMargins(0, 0)
+	// What the shipped writer does at the boundary: take the frame including
+	// the link-layer margins (the link header and MAC are written there), then
+	// release it. A frame without room for the margins is lost, exactly as on a
+	// real link (the writer logs a non-fatal error).
+	full, err := f.FrameDataWithMargins(peering.FrameOffset, peering.FrameOverhead)
 	if err != nil {
 		f.ReturnToPool()
+		l.net.mu.Lock()
+		l.net.WriteErrors++
+		l.net.mu.Unlock()
 		return nil
 	}
-	cp := append([]byte(nil), data...)
+	cp := append([]byte(nil), full[peering.FrameOffset:len(full)-peering.FrameOverhead]...)
 	f.ReturnToPool()
 	if l.closing.Load() {
 		return nil
